@@ -1,28 +1,74 @@
 (* C12, translator tie: the body of `impl_rgb_color!` (core/src/pixelcolor/rgb_color.rs) translated as a template, i.e. as
-   functions of the macro parameters ($r_bits, $g_bits, $b_bits, $r_pos, $g_pos, $b_pos; $storage_type instantiated with u32),
+   functions of the macro parameters ($r_bits, $g_bits, $b_bits, $r_pos, $g_pos, $b_pos), once per storage type that the
+   `rgb_color!` invocations pass ($storage_type = u8, u16, u32; the translator checks that every invocation is covered),
    regenerated from the source on every run by translate/r2c (coq/Gen/SrcRgbColor.v): MAX_R/G/B, RGB_MASK, new, r(), g(),
-   b() equal the model functions of every table row t whose channel widths and positions are those parameters
-   (row_is, Proofs/SrcConv.v).  That the rows of Gen/ColorTable.v carry the arguments of the `rgb_color!` invocations is
-   gen_colors.py's part of the tie.  Statements only. *)
+   b() equal the model functions of every table row t whose channel widths and positions are those parameters (row_is),
+   whose widths are shift amounts of usize (bits_ok) and whose channel masks fit the storage type (fits: then the
+   truncating `<<` of Rust drops no bit).  That the rows of Gen/ColorTable.v carry the arguments of the `rgb_color!`
+   invocations is gen_colors.py's part of the tie.  Statements only (proofs: Proofs/SrcConv.v). *)
 From EG Require Import Base.Prelude Base.Casts Gen.ColorConsts Gen.ColorTable Model.Colormodel Gen.SrcRgbColor Proofs.SrcConv.
 
-Theorem C12_src_rgb_max_is_model : forall bits,
-  src_rgb_MAX_R bits = chan_max bits /\ src_rgb_MAX_G bits = chan_max bits /\ src_rgb_MAX_B bits = chan_max bits.
-Proof. exact src_rgb_MAX_eq. Qed.
-Theorem C12_src_rgb_new_is_model : forall t rb gb bb rp gp bp r g b,
-  row_is t rb gb bb rp gp bp -> 0 <= r <= 255 -> 0 <= g <= 255 -> 0 <= b <= 255 ->
-  src_rgb_new rb gb bb rp gp bp r g b = rgb_new t r g b.
-Proof. exact src_rgb_new_eq. Qed.
-Theorem C12_src_rgb_r_is_model : forall t rb gb bb rp gp bp c, row_is t rb gb bb rp gp bp -> src_rgb_r rb rp c = get_r t c.
-Proof. exact src_rgb_r_eq. Qed.
-Theorem C12_src_rgb_g_is_model : forall t rb gb bb rp gp bp c, row_is t rb gb bb rp gp bp -> src_rgb_g gb gp c = get_g t c.
-Proof. exact src_rgb_g_eq. Qed.
-Theorem C12_src_rgb_b_is_model : forall t rb gb bb rp gp bp c, row_is t rb gb bb rp gp bp -> src_rgb_b bb bp c = get_b t c.
-Proof. exact src_rgb_b_eq. Qed.
-Theorem C12_src_rgb_mask_is_model : forall t rb gb bb rp gp bp,
-  row_is t rb gb bb rp gp bp -> src_rgb_RGB_MASK rb gb bb rp gp bp = rgb_mask t.
-Proof. exact src_rgb_mask_eq. Qed.
+Theorem C12_src_rgb8_max_is_model : forall bits, 0 <= bits < 64 ->
+  src_rgb8_MAX_R bits = chan_max bits /\ src_rgb8_MAX_G bits = chan_max bits /\ src_rgb8_MAX_B bits = chan_max bits.
+Proof. exact src_rgb8_MAX_eq. Qed.
+Theorem C12_src_rgb8_new_is_model : forall t rb gb bb rp gp bp r g b,
+  row_is t rb gb bb rp gp bp -> bits_ok t -> fits t 255 -> 0 <= r <= 255 -> 0 <= g <= 255 -> 0 <= b <= 255 ->
+  src_rgb8_new rb gb bb rp gp bp r g b = rgb_new t r g b.
+Proof. exact src_rgb8_new_eq. Qed.
+Theorem C12_src_rgb8_r_is_model : forall t rb gb bb rp gp bp c,
+  row_is t rb gb bb rp gp bp -> bits_ok t -> 0 <= rpos t -> 0 <= c <= 255 -> src_rgb8_r rb rp c = get_r t c.
+Proof. exact src_rgb8_r_eq. Qed.
+Theorem C12_src_rgb8_g_is_model : forall t rb gb bb rp gp bp c,
+  row_is t rb gb bb rp gp bp -> bits_ok t -> 0 <= gpos t -> 0 <= c <= 255 -> src_rgb8_g gb gp c = get_g t c.
+Proof. exact src_rgb8_g_eq. Qed.
+Theorem C12_src_rgb8_b_is_model : forall t rb gb bb rp gp bp c,
+  row_is t rb gb bb rp gp bp -> bits_ok t -> 0 <= bpos t -> 0 <= c <= 255 -> src_rgb8_b bb bp c = get_b t c.
+Proof. exact src_rgb8_b_eq. Qed.
+Theorem C12_src_rgb8_mask_is_model : forall t rb gb bb rp gp bp,
+  row_is t rb gb bb rp gp bp -> bits_ok t -> fits t 255 -> src_rgb8_RGB_MASK rb gb bb rp gp bp = rgb_mask t.
+Proof. exact src_rgb8_mask_eq. Qed.
+
+Theorem C12_src_rgb16_max_is_model : forall bits, 0 <= bits < 64 ->
+  src_rgb16_MAX_R bits = chan_max bits /\ src_rgb16_MAX_G bits = chan_max bits /\ src_rgb16_MAX_B bits = chan_max bits.
+Proof. exact src_rgb16_MAX_eq. Qed.
+Theorem C12_src_rgb16_new_is_model : forall t rb gb bb rp gp bp r g b,
+  row_is t rb gb bb rp gp bp -> bits_ok t -> fits t 65535 -> 0 <= r <= 255 -> 0 <= g <= 255 -> 0 <= b <= 255 ->
+  src_rgb16_new rb gb bb rp gp bp r g b = rgb_new t r g b.
+Proof. exact src_rgb16_new_eq. Qed.
+Theorem C12_src_rgb16_r_is_model : forall t rb gb bb rp gp bp c,
+  row_is t rb gb bb rp gp bp -> bits_ok t -> 0 <= rpos t -> src_rgb16_r rb rp c = get_r t c.
+Proof. exact src_rgb16_r_eq. Qed.
+Theorem C12_src_rgb16_g_is_model : forall t rb gb bb rp gp bp c,
+  row_is t rb gb bb rp gp bp -> bits_ok t -> 0 <= gpos t -> src_rgb16_g gb gp c = get_g t c.
+Proof. exact src_rgb16_g_eq. Qed.
+Theorem C12_src_rgb16_b_is_model : forall t rb gb bb rp gp bp c,
+  row_is t rb gb bb rp gp bp -> bits_ok t -> 0 <= bpos t -> src_rgb16_b bb bp c = get_b t c.
+Proof. exact src_rgb16_b_eq. Qed.
+Theorem C12_src_rgb16_mask_is_model : forall t rb gb bb rp gp bp,
+  row_is t rb gb bb rp gp bp -> bits_ok t -> fits t 65535 -> src_rgb16_RGB_MASK rb gb bb rp gp bp = rgb_mask t.
+Proof. exact src_rgb16_mask_eq. Qed.
+
+Theorem C12_src_rgb32_max_is_model : forall bits, 0 <= bits < 64 ->
+  src_rgb32_MAX_R bits = chan_max bits /\ src_rgb32_MAX_G bits = chan_max bits /\ src_rgb32_MAX_B bits = chan_max bits.
+Proof. exact src_rgb32_MAX_eq. Qed.
+Theorem C12_src_rgb32_new_is_model : forall t rb gb bb rp gp bp r g b,
+  row_is t rb gb bb rp gp bp -> bits_ok t -> fits t 4294967295 -> 0 <= r <= 255 -> 0 <= g <= 255 -> 0 <= b <= 255 ->
+  src_rgb32_new rb gb bb rp gp bp r g b = rgb_new t r g b.
+Proof. exact src_rgb32_new_eq. Qed.
+Theorem C12_src_rgb32_r_is_model : forall t rb gb bb rp gp bp c,
+  row_is t rb gb bb rp gp bp -> bits_ok t -> 0 <= rpos t -> src_rgb32_r rb rp c = get_r t c.
+Proof. exact src_rgb32_r_eq. Qed.
+Theorem C12_src_rgb32_g_is_model : forall t rb gb bb rp gp bp c,
+  row_is t rb gb bb rp gp bp -> bits_ok t -> 0 <= gpos t -> src_rgb32_g gb gp c = get_g t c.
+Proof. exact src_rgb32_g_eq. Qed.
+Theorem C12_src_rgb32_b_is_model : forall t rb gb bb rp gp bp c,
+  row_is t rb gb bb rp gp bp -> bits_ok t -> 0 <= bpos t -> src_rgb32_b bb bp c = get_b t c.
+Proof. exact src_rgb32_b_eq. Qed.
+Theorem C12_src_rgb32_mask_is_model : forall t rb gb bb rp gp bp,
+  row_is t rb gb bb rp gp bp -> bits_ok t -> fits t 4294967295 -> src_rgb32_RGB_MASK rb gb bb rp gp bp = rgb_mask t.
+Proof. exact src_rgb32_mask_eq. Qed.
 
 Example C12_src_nonvacuous :
-  src_rgb_new 5 6 5 11 5 0 255 128 7 = 63495 /\ src_rgb_g 6 5 63495 = 0 /\ src_rgb_r 5 11 63495 = 31.
-Proof. repeat split; vm_compute; reflexivity. Qed.
+  src_rgb16_new 5 6 5 11 5 0 255 128 7 = 63495 /\ src_rgb16_g 6 5 63495 = 0 /\ src_rgb16_r 5 11 63495 = 31 /\
+  src_rgb8_new 3 3 2 5 2 0 255 0 255 = 227 /\ fits row_Rgb565 65535 /\ bits_ok row_Rgb565.
+Proof. repeat split; vm_compute; try reflexivity; discriminate. Qed.
